@@ -707,7 +707,7 @@ fn one_case(ctx: &Ctx, stream: &str, idx: usize, id: String, hostile: bool) -> C
             }
             82..=93 => {
                 // transmit
-                let which = rng.below(4);
+                let which = rng.below(5);
                 let n = match rng.below(6) {
                     0 => 1,
                     1 | 2 => rng.range(1, 16) as usize,
@@ -739,6 +739,21 @@ fn one_case(ctx: &Ctx, stream: &str, idx: usize, id: String, hostile: bool) -> C
                         *kinds.entry("write").or_default() += 1;
                         let d = stream_chunk(g, 0, n);
                         (format!("con write n={} g={}", n, g), d.clone(), guarded(|| embedded_io::Write::write(&mut con, &d).map(Some)))
+                    }
+                    4 => {
+                        // fmt::Write::write_char / write!("{}", char): the character's UTF-8 encoding is
+                        // what must reach the device (one to four bytes), not a truncation of its code point
+                        *kinds.entry("write_char").or_default() += 1;
+                        const CPS: [u32; 12] = [0x41, 0x7f, 0x80, 0xe9, 0x7ff, 0x800, 0x20ac, 0xd7ff, 0xe000, 0xffff, 0x10000, 0x1f600];
+                        let cp = CPS[(g % 12) as usize];
+                        let ch = char::from_u32(cp).unwrap();
+                        let mut b4 = [0u8; 4];
+                        let d = ch.encode_utf8(&mut b4).as_bytes().to_vec();
+                        if g % 2 == 0 {
+                            (format!("con write_char cp={}", cp), d, guarded(|| core::fmt::Write::write_char(&mut con, ch).map(|_| None).map_err(|_| virtio_drivers::Error::IoError)))
+                        } else {
+                            (format!("con write_char cp={}", cp), d, guarded(|| { use core::fmt::Write; write!(con, "{}", ch).map(|_| None).map_err(|_| virtio_drivers::Error::IoError) }))
+                        }
                     }
                     _ => {
                         *kinds.entry("write_str").or_default() += 1;
@@ -1004,7 +1019,7 @@ pub fn run(ctx: &Ctx) -> (Vec<Case>, String, bool, BTreeMap<String, String>) {
             cases.len()
         )),
     );
-    let rule = "random walks over the real VirtIOConsole: recv(pop/peek), Read::read (sizes 0..8192), BufRead::fill_buf+consume, ReadReady, ack_interrupt (ISR as left by the device or arbitrary), send/send_bytes/Write::write/fmt::Write::write_str, size(), emergency_write, and device fills of 1..4096 bytes between calls and inside blocking calls (spin hook); features SIZE/EMERG_WRITE/INDIRECT/EVENT_IDX/ACCESS_PLATFORM and config-space length varied; stream `hostile` adds zero/oversized/over-/under-reported device lengths, out-of-range consume and empty sends; every case ends with a drain; non-trivial = at least one byte travelled device->caller and (honest stream) at least one send reached the device".to_string();
+    let rule = "random walks over the real VirtIOConsole: recv(pop/peek), Read::read (sizes 0..8192), BufRead::fill_buf+consume, ReadReady, ack_interrupt (ISR as left by the device or arbitrary), send/send_bytes/Write::write/fmt::Write::write_str/write_char/write! of a char (ASCII to four-byte UTF-8), size(), emergency_write, and device fills of 1..4096 bytes between calls and inside blocking calls (spin hook); features SIZE/EMERG_WRITE/INDIRECT/EVENT_IDX/ACCESS_PLATFORM and config-space length varied; stream `hostile` adds zero/oversized/over-/under-reported device lengths, out-of-range consume and empty sends; every case ends with a drain; non-trivial = at least one byte travelled device->caller and (honest stream) at least one send reached the device".to_string();
     (cases, rule, false, extra)
 }
 
